@@ -30,6 +30,7 @@ import (
 	"sort"
 	"strconv"
 	"strings"
+	"sync"
 	"time"
 
 	wapi "wa-lang.org/wa/api"
@@ -70,6 +71,7 @@ type Out struct {
 	Sample   string   `json:"sample,omitempty"`    // one call with its outcome
 	SizeO    int      `json:"size_orig,omitempty"` // bytes of wasm
 	SizeS    int      `json:"size_strip,omitempty"`
+	Pending  string   `json:"pending,omitempty"` // the call that did not return within the time limit
 }
 
 func d(s string) string { return "$" + s }
@@ -339,7 +341,7 @@ func indepReach(m *ast.Module) string {
 	return keptLine(fs, is)
 }
 
-// every function name referenced in m that m does not define
+// every function name referenced in m that m does not define (numeric indices are not names: skipped)
 func danglingRefs(m *ast.Module) []string {
 	names := map[string]bool{}
 	for _, s := range funcImports(m) {
@@ -356,17 +358,18 @@ func danglingRefs(m *ast.Module) []string {
 			}
 		}
 	}
+	isNum := func(s string) bool { return s != "" && s[0] >= '0' && s[0] <= '9' }
 	if m.Start != "" && !names[m.Start] {
 		bad["start:"+d(m.Start)] = true
 	}
 	for _, e := range m.Exports {
-		if e.Kind == token.FUNC && !names[e.FuncIdx] {
+		if e.Kind == token.FUNC && !isNum(e.FuncIdx) && !names[e.FuncIdx] {
 			bad["export:"+d(e.FuncIdx)] = true
 		}
 	}
 	for _, e := range m.Elem {
 		for _, v := range e.Values {
-			if !names[v] {
+			if !isNum(v) && !names[v] {
 				bad["elem:"+d(v)] = true
 			}
 		}
@@ -533,47 +536,34 @@ func (r *rng) arg(t api.ValueType, small bool) uint64 {
 	return v
 }
 
-type callRec struct {
-	name string
-	args []uint64
-	out  string
-	hlog []string
+// one call on one instance
+func callOne(x *inst, n string, args []uint64) (out string, hlog []string) {
+	f := x.mod.ExportedFunction(n)
+	if f == nil {
+		return "missing-export", nil
+	}
+	x.log = x.log[:0]
+	res, err := f.Call(bg, args...)
+	if err != nil {
+		out = "trap:" + trapClass(err)
+	} else {
+		out = fmt.Sprint(res)
+	}
+	return out, append([]string(nil), x.log...)
 }
 
-// the call sequence is a function of (sorted export names + signatures, seed) only, so both
-// modules receive the same sequence as long as their export lists agree
-func runCalls(x *inst, names []string, seed uint64, rounds int, small bool) []callRec {
-	var recs []callRec
-	r := &rng{seed}
-	for round := 0; round < rounds; round++ {
-		for _, n := range names {
-			f := x.mod.ExportedFunction(n)
-			var args []uint64
-			var pts []api.ValueType
-			if f != nil {
-				pts = f.Definition().ParamTypes()
-			}
-			for _, t := range pts {
-				args = append(args, r.arg(t, small))
-			}
-			rec := callRec{name: n, args: args}
-			if f == nil {
-				rec.out = "missing-export"
-				recs = append(recs, rec)
-				continue
-			}
-			x.log = x.log[:0]
-			res, err := f.Call(bg, args...)
-			if err != nil {
-				rec.out = "trap:" + trapClass(err)
-			} else {
-				rec.out = fmt.Sprint(res)
-			}
-			rec.hlog = append([]string(nil), x.log...)
-			recs = append(recs, rec)
-		}
-	}
-	return recs
+// partial result published before every call, printed by the watchdog if a call never returns
+var (
+	partialMu sync.Mutex
+	partial   *Out
+)
+
+func publish(o Out) {
+	partialMu.Lock()
+	c := o
+	c.Diffs = append([]string(nil), o.Diffs...)
+	partial = &c
+	partialMu.Unlock()
 }
 
 func asm(name string, src []byte) (b []byte, st string) {
@@ -743,24 +733,36 @@ func process(kind, arg string, seed uint64, dumpDir string) (o Out) {
 	if small {
 		rounds = 1
 	}
-	ro := runCalls(xo, o.Exports, seed, rounds, small)
-	rs := runCalls(xs, o.Exports, seed, rounds, small)
-	o.Calls = len(ro)
-	o.HostLog = xo.nlog
+	// the same call sequence on both instances, interleaved call by call; arguments are a function
+	// of (sorted export names + signatures of the ORIGINAL, seed)
+	r := &rng{seed}
 	dist := map[string]bool{}
-	for i := range ro {
-		a, b := ro[i], rs[i]
-		if strings.HasPrefix(a.out, "trap:") {
-			o.Traps++
-		}
-		dist[a.out] = true
-		if a.out != b.out || strings.Join(a.hlog, ";") != strings.Join(b.hlog, ";") {
-			if len(o.Diffs) < 5 {
-				o.Diffs = append(o.Diffs, fmt.Sprintf("%s%v: orig=%s (host calls %d) strip=%s (host calls %d)", a.name, a.args, a.out, len(a.hlog), b.out, len(b.hlog)))
+	for round := 0; round < rounds; round++ {
+		for _, n := range o.Exports {
+			var args []uint64
+			for _, t := range xo.mod.ExportedFunction(n).Definition().ParamTypes() {
+				args = append(args, r.arg(t, small))
 			}
-		}
-		if o.Sample == "" && !strings.HasPrefix(a.out, "trap:") && len(a.args) > 0 {
-			o.Sample = fmt.Sprintf("%s%v=%s", a.name, a.args, a.out)
+			o.Pending = fmt.Sprintf("%s%v", n, args)
+			publish(o)
+			ao, ah := callOne(xo, n, args)
+			bo, bh := callOne(xs, n, args)
+			o.Pending = ""
+			o.Calls++
+			if strings.HasPrefix(ao, "trap:") {
+				o.Traps++
+			}
+			dist[ao] = true
+			if ao != bo || strings.Join(ah, ";") != strings.Join(bh, ";") {
+				if len(o.Diffs) < 5 {
+					o.Diffs = append(o.Diffs, fmt.Sprintf("%s%v: orig=%s (host calls %d) strip=%s (host calls %d)", n, args, ao, len(ah), bo, len(bh)))
+				}
+			}
+			if o.Sample == "" && !strings.HasPrefix(ao, "trap:") && len(args) > 0 {
+				o.Sample = fmt.Sprintf("%s%v=%s", n, args, ao)
+			}
+			o.HostLog = xo.nlog
+			o.Distinct = len(dist)
 		}
 	}
 	o.Distinct = len(dist)
@@ -789,10 +791,19 @@ func main() {
 		}
 		// a runaway exported function cannot be interrupted: give up on the whole process
 		wd := time.AfterFunc(limit, func() {
-			fmt.Println(`{"status":"timeout"}`)
+			partialMu.Lock()
+			if partial != nil {
+				b, _ := json.Marshal(partial)
+				fmt.Println(string(b))
+			} else {
+				fmt.Println(`{"status":"timeout"}`)
+			}
 			os.Exit(0)
 		})
 		defer wd.Stop()
+		partialMu.Lock()
+		partial = nil
+		partialMu.Unlock()
 		var o Out
 		if p := vh.Safe(func() string { o = process(f[0], f[1], seed, dump); return "" }); p != "" {
 			o = Out{Status: "harness-panic", Detail: p}
